@@ -1,0 +1,61 @@
+//! Verification hooks, compiled only with `--cfg rescrv_blue_verif`.
+//!
+//! Nothing in here changes what the store does: the hooks let a test driver run the background
+//! loops one iteration at a time, observe state that is otherwise private, learn which condition
+//! variable a thread is parked on, and be called at named points between critical sections.
+
+use std::sync::atomic::{AtomicBool, AtomicU64, AtomicUsize, Ordering};
+
+/// When set, `memtable_thread` and `compaction_thread` perform at most one unit of work and
+/// return (and return immediately when they would otherwise wait for work).
+static SINGLE_STEP: AtomicBool = AtomicBool::new(false);
+
+pub fn set_single_step(on: bool) {
+    SINGLE_STEP.store(on, Ordering::SeqCst);
+}
+
+pub fn single_step() -> bool {
+    SINGLE_STEP.load(Ordering::SeqCst)
+}
+
+/// Units of background work completed (whatever the mode).
+pub static FLUSHES_DONE: AtomicU64 = AtomicU64::new(0);
+pub static COMPACTIONS_DONE: AtomicU64 = AtomicU64::new(0);
+
+/// Park registry: how many threads wait on each condition variable.  Updated while the mutex that
+/// guards the condition variable is held; GENERATION ticks on every change.
+pub const STALL: usize = 0;
+pub const COMPACT: usize = 1;
+pub const NEEDS_FLUSH: usize = 2;
+pub static PARKED: [AtomicU64; 3] = [AtomicU64::new(0), AtomicU64::new(0), AtomicU64::new(0)];
+pub static GENERATION: AtomicU64 = AtomicU64::new(0);
+
+pub fn park(which: usize) {
+    PARKED[which].fetch_add(1, Ordering::SeqCst);
+    GENERATION.fetch_add(1, Ordering::SeqCst);
+}
+
+pub fn unpark(which: usize) {
+    PARKED[which].fetch_sub(1, Ordering::SeqCst);
+    GENERATION.fetch_add(1, Ordering::SeqCst);
+}
+
+/// A callback invoked at named points that sit between critical sections.  No store lock is held
+/// at any of them.
+pub type YieldFn = fn(&'static str);
+
+static YIELD: AtomicUsize = AtomicUsize::new(0);
+
+pub fn set_yield(f: Option<YieldFn>) {
+    YIELD.store(f.map(|f| f as usize).unwrap_or(0), Ordering::SeqCst);
+}
+
+#[inline]
+pub fn yield_point(site: &'static str) {
+    let f = YIELD.load(Ordering::Relaxed);
+    if f != 0 {
+        // SAFETY: only ever stored from a YieldFn in set_yield.
+        let f: YieldFn = unsafe { std::mem::transmute::<usize, YieldFn>(f) };
+        f(site);
+    }
+}
